@@ -12,7 +12,7 @@ EvalOdo(c) ==
   LET p1 == Lift(c.k, c.t1, c.r1)  p2 == Lift(c.k, c.t2, c.r2)  z == Lift(c.k, c.tz, c.rz)
       ej == OdoErrC(Pert(p1, 0), Pert(p2, CDim(p1.k)), z, "canon")
   IN [e |-> EOut(ej), J |-> JOut(ej), w |-> OdoErrW(p1, p2, z), chi2 |-> IF c.chi2 THEN Chi2Form(ej, c.W) ELSE ZeroForm,
-      unit |-> UnitRot(p1) /\ UnitRot(p2) /\ UnitRot(z)]
+      unit |-> UnitRot(p1) /\ UnitRot(p2) /\ (c.tiny \/ UnitRot(z))]        \* (tiny: z = (2n,0,0,n^2-1)/(n^2+1) is unit by construction; its square exceeds 32 bits)
 EvalLm(c) ==
   LET p1 == Lift(c.k, c.t1, c.r1)  l == Lift(c.k2, c.t2, <<>>)  off == Lift(c.k, c.toff, c.roff)  z == Lift(c.k2, c.tz, <<>>)
       ej == LmErrJ(p1, l, off, z)
